@@ -624,8 +624,8 @@ pub fn run_check<P: Property>(p: &P, st: &Settings) -> i32 {
         let (run, trace, f0) = match chosen {
             Some(x) => x,
             None => {
-                eprintln!("HARNESS-ERROR: {} failing run(s) were observed in the batch but none reproduces when re-executed alone: the outcome depends on what the thread executed before (state carried across operations); no replayable violation can be reported", skipped);
-                return 2;
+                eprintln!("note: {} failing run(s) were observed in the batch but none reproduces when re-executed alone (exit 3): the outcome depends on execution history or on other threads", skipped);
+                return 3;
             }
         };
         if skipped > 0 {
@@ -665,8 +665,8 @@ pub fn run_check<P: Property>(p: &P, st: &Settings) -> i32 {
     if agg.history_dependent > 0 {
         println!("note: {} failure(s) did not recur when their trace was executed again at once: the outcome depended on what the thread had executed before (state carried across operations)", agg.history_dependent);
         if exit == 0 {
-            eprintln!("HARNESS-ERROR: only history-dependent failures were observed; no replayable violation can be reported, and the tree cannot be called clean");
-            return 2;
+            eprintln!("note: only history-dependent failures were observed in the batch (exit 3): the caller runs the interference pass to see whether other threads are the cause");
+            return 3;
         }
     }
 
